@@ -32,3 +32,14 @@ Theorem C19_iso8601_display_whole_second_witness :
   exists e, weekday e <> None /\ nanos_of (compute_gregorian (dur e) (scale e)) = 0 /\
             formatter_new e (predefined_by_index 0) <> ROk (display_epoch e).
 Proof. exact iso8601_display_whole_second_witness. Qed.
+(* per-token rendering, for every epoch and every format made of the tokens Y y m d H M S f z T A a B b (optional or not):
+   each item prints the field its token names (zero-padded numbers, nine-digit %f, names, scale, offset), preceded by exactly the
+   separators of the item before it; an optional token that is zero / UTC prints nothing and its leading separators are
+   dropped; the separators of the last item are never printed.  spec_render_items is that description, executable. *)
+Theorem C19_formatter_spec : forall e off fmt wd out, weekday e = Some wd -> need_gregorian fmt = true ->
+  spec_render_items e off (compute_gregorian (dur e) (scale e)) wd None fmt = Some out ->
+  formatter_render e off fmt = ROk out.
+Proof. exact formatter_spec. Qed.
+Example C19_formatter_spec_nonvacuous :
+  exists out, spec_render_items (mkE (mkD 0 86399000000037) UTC) D_ZERO (compute_gregorian (mkD 0 86399000000037) UTC) 0 None (predefined_by_index 2) = Some out.
+Proof. eexists. vm_compute. reflexivity. Qed.
